@@ -56,7 +56,7 @@ def episode(ctx, chain):
                 a = np.array([rng.choice([0.0, rng.uniform(-0.4, 0.5)]) for _ in cfg["cs"]])
             if cfg.get("nrc"):
                 # positions in numbers of contracts: sized like the weights at the first quotes
-                a = np.array([w * cfg["cash0"] / (cfg["px0"][c] * c.multiplier) for w, c in zip(a, cfg["cs"])])
+                a = np.array([w * cfg["cash0"] / (cfg["px0"][c] * c.multiplier) for w, c in zip(a, cfg["cs"])] + [0.0])
             try:
                 o, r, done, info = env.step(a)
             except EndOfEpisodeError:
